@@ -1,6 +1,7 @@
 """
 harness/translate.py — a small Python → Lean 4 translator for the straight-line and simple-loop
-functions of autoarray/geometry/geometry_util.py and grid_2d_util.grid_2d_slim_via_mask_from.
+functions of autoarray/geometry/geometry_util.py, grid_2d_util.grid_2d_slim_via_mask_from and
+over_sample_util.grid_2d_slim_over_sampled_via_mask_from.
 
 This is the second kind of tie the brief allows (model regenerated from the source on every run):
 `generate(repo)` reads the CURRENT source, emits `lean/Generated/Geometry.lean` containing
@@ -29,6 +30,7 @@ from pathlib import Path
 
 GEOM = "autoarray/geometry/geometry_util.py"
 GRID = "autoarray/structures/grids/grid_2d_util.py"
+OVER = "autoarray/operators/over_sampling/over_sample_util.py"
 
 # (file, python function, kind, lean name of the model function it must equal, how to apply it)
 #   kind: "fn" straight-line; "row" per-row loop body; "pixel" mask double loop body
@@ -45,6 +47,7 @@ TARGETS = [
     (GEOM, "grid_pixel_centres_2d_slim_from", "row"),
     (GEOM, "grid_scaled_2d_slim_from", "row"),
     (GRID, "grid_2d_slim_via_mask_from", "pixel"),
+    (OVER, "grid_2d_slim_over_sampled_via_mask_from", "pixel"),
 ]
 
 # parameter name -> (lean binder name, lean type, python tuple arity (0 = scalar))
@@ -66,6 +69,8 @@ def param_info(fname, p):
         return ("row", "α × α", 2, "real")  # the loop's current row
     if p == "mask_2d":
         return ("shape", "Nat × Nat", 2, "nat")  # only `mask_2d.shape` is used by the pixel body
+    if p == "sub_size":
+        return (None, None, 0, "nat")  # read only as `sub = sub_size[index]`: becomes the binder `sub`
     raise TranslationError(f"{fname}: parameter {p!r} has no declared type")
 
 
@@ -85,13 +90,18 @@ def lit(v):
 
 
 class FnTranslator:
-    def __init__(self, fname, node, kind, known):
+    ns = "Generated"
+
+    def __init__(self, fname, node, kind, known, ns="Generated"):
+        self.ns = ns
         self.fname, self.node, self.kind, self.known = fname, node, kind, known
         self.params = [a.arg for a in node.args.args]
         self.env = {}  # python name -> (lean expr, arity, sort)
         self.binders = []
         for p in self.params:
             b, ty, ar, sort = param_info(fname, p)
+            if b is None:
+                continue
             self.env[p] = (b, ar, sort)
             if (b, ty) not in self.binders:
                 self.binders.append((b, ty))
@@ -173,7 +183,7 @@ class FnTranslator:
                 if p not in kw:
                     raise TranslationError(f"call of {name} without {p}=")
                 args.append(self.tuple_arg(kw[p]))
-            return "(" + " ".join([f"Generated.{name}"] + args) + ")"
+            return "(" + " ".join([f"{self.ns}.{name}"] + args) + ")"
         raise TranslationError(f"unsupported call {ast.unparse(e)}")
 
     def tuple_arg(self, e):
@@ -244,9 +254,37 @@ class FnTranslator:
                 if not (isinstance(inner, ast.For) and isinstance(inner.body[0], ast.If)):
                     raise TranslationError(f"{self.fname}: not the mask double loop")
                 self.loop_vars = {loop.target.id: "y", inner.target.id: "x"}
-                self.binders += [("y", "Nat"), ("x", "Nat")]
-                stmts = [s for s in inner.body[0].body if isinstance(s, ast.Assign)]
-                self.row_vars = ("index",)
+                late_binders = [("y", "Nat"), ("x", "Nat")]
+                self.row_vars = ("index", "sub_index")
+                stmts = []
+
+                def walk(block):
+                    for st in block:
+                        if isinstance(st, ast.AugAssign):
+                            continue  # running counters: loop plumbing
+                        if isinstance(st, ast.For):
+                            v = st.target.id
+                            self.loop_vars[v] = v
+                            late_binders.append((v, "Nat"))
+                            walk(st.body)
+                        elif isinstance(st, ast.Assign) and isinstance(st.targets[0], ast.Name):
+                            v = st.value
+                            if isinstance(v, ast.Subscript) and isinstance(v.value, ast.Name) \
+                                    and v.value.id == "sub_size":
+                                # `sub = sub_size[index]`: the current pixel's sub size, a Nat binder
+                                name = st.targets[0].id
+                                self.binders.append((name, "Nat"))
+                                self.env[name] = (name, 0, "nat")
+                            else:
+                                self.assign_local(st)
+                        elif isinstance(st, ast.Assign):
+                            stmts.append(st)
+                        else:
+                            raise TranslationError(
+                                f"{self.fname}: unsupported statement {ast.unparse(st)[:60]}")
+
+                walk(inner.body[0].body)
+                self.binders += late_binders
             for st in stmts:
                 t = st.targets[0]
                 if not (isinstance(t, ast.Subscript) and isinstance(t.slice, ast.Tuple)
@@ -282,6 +320,8 @@ TIES = {
     "grid_pixel_centres_2d_slim_from": "Impl.pixelCentreOfScaled trunc shape s o row",
     "grid_scaled_2d_slim_from": "Impl.scaledOfPixels shape s o row",
     "grid_2d_slim_via_mask_from": "Impl.pixelCentreScaled shape s o (y, x)",
+    "grid_2d_slim_over_sampled_via_mask_from":
+        "Impl.subPixelCentre { shape := shape, s := s, o := o } sub (y, x) (y1, x1)",
 }
 
 def tie_rhs(s):
@@ -297,6 +337,7 @@ per-pixel body).  Namespace `GeneratedTie`: each generated definition is definit
 hand-written model function of Model/Geometry.lean that the theorems of C02 / C12 are about.
 -/
 import Model.Geometry
+import Model.EntryPoints
 
 open Model
 
@@ -330,7 +371,7 @@ def generate(repo: Path) -> str:
         fn = FnTranslator(fname, node, kind, {})
         types = dict(fn.binders)
         if kind == "pixel":
-            types.update({"y": "Nat", "x": "Nat"})
+            types.update({b: "Nat" for b in binders if b not in types})
         for b in binders:
             bl.append(f"({b} : {types[b]})")
         args = (["trunc"] if info["uses_trunc"] else []) + binders
@@ -341,6 +382,92 @@ def generate(repo: Path) -> str:
             + "\n".join(ties) + "\nend GeneratedTie\n\nend\n")
 
 
+# ---------------------------------------------------------------------------------------------------
+# second generated module: the same over-sampling formulas tied to property C09's own model
+# (Model/OverSample.lean uses numeric literals through `OfNat`, so the tie is an equality over any
+# ordered field proved by `simp`/`ring`, not `rfl`)
+# ---------------------------------------------------------------------------------------------------
+OS_TARGETS = [
+    (GEOM, "central_pixel_coordinates_2d_from", "fn"),
+    (GEOM, "central_scaled_coordinate_2d_from", "fn"),
+    (GRID, "grid_2d_slim_via_mask_from", "pixel"),
+    (OVER, "grid_2d_slim_over_sampled_via_mask_from", "pixel"),
+]
+
+OS_HEADER = '''/-
+Generated/OverSample.lean — GENERATED by harness/translate.py from the current Python source.  Do not
+edit.  Namespace `GeneratedOS`: the translated definitions; namespace `GeneratedOSTie`: each equals the
+hand-written model function of Model/OverSample.lean (property C09) over any ordered field.
+-/
+import Model.OverSample
+import Mathlib.Tactic.Ring
+import Mathlib.Tactic.FieldSimp
+import Mathlib.Algebra.Order.Field.Basic
+
+open Model
+
+set_option linter.unusedSectionVars false
+
+section
+variable {α : Type} [Add α] [Sub α] [Mul α] [Div α] [Neg α] [NatCast α]
+
+namespace GeneratedOS
+
+'''
+
+OS_TIES = '''
+end GeneratedOS
+end
+
+section
+variable {α : Type} [Field α] [LinearOrder α] [IsStrictOrderedRing α]
+
+namespace GeneratedOSTie
+
+theorem central_scaled_coordinate_2d_from_eq (shape : Nat × Nat) (s o : α × α) :
+    GeneratedOS.central_scaled_coordinate_2d_from (α := α) shape s o
+      = Impl.centresScaled shape.1 shape.2 ⟨s.1, s.2, o.1, o.2⟩ := by
+  simp only [GeneratedOS.central_scaled_coordinate_2d_from, GeneratedOS.central_pixel_coordinates_2d_from,
+    Impl.centresScaled, Nat.cast_one, Nat.cast_ofNat]
+
+theorem grid_2d_slim_via_mask_from_eq (shape : Nat × Nat) (s o : α × α) (y x : Nat) :
+    GeneratedOS.grid_2d_slim_via_mask_from (α := α) shape s o y x
+      = Impl.pixelPoint ⟨s.1, s.2, o.1, o.2⟩
+          (Impl.centresScaled shape.1 shape.2 ⟨s.1, s.2, o.1, o.2⟩) y x := by
+  simp only [GeneratedOS.grid_2d_slim_via_mask_from, Impl.pixelPoint,
+    central_scaled_coordinate_2d_from_eq]
+
+theorem grid_2d_slim_over_sampled_via_mask_from_eq (shape : Nat × Nat) (s o : α × α)
+    (sub y x y1 x1 : Nat) :
+    GeneratedOS.grid_2d_slim_over_sampled_via_mask_from (α := α) shape s o sub y x y1 x1
+      = Impl.subPoint ⟨s.1, s.2, o.1, o.2⟩
+          (Impl.centresScaled shape.1 shape.2 ⟨s.1, s.2, o.1, o.2⟩) y x sub y1 x1 := by
+  simp only [GeneratedOS.grid_2d_slim_over_sampled_via_mask_from, Impl.subPoint,
+    central_scaled_coordinate_2d_from_eq, Nat.cast_ofNat]
+
+end GeneratedOSTie
+end
+'''
+
+
+def generate_oversample(repo: Path) -> str:
+    trees, known, defs = {}, {}, []
+    for path, fname, kind in OS_TARGETS:
+        if path not in trees:
+            trees[path] = ast.parse((repo / path).read_text())
+        node = next((n for n in trees[path].body if isinstance(n, ast.FunctionDef) and n.name == fname), None)
+        if node is None:
+            raise TranslationError(f"{path}: function {fname} not found")
+        info = FnTranslator(fname, node, kind, known, ns="GeneratedOS").translate()
+        known[fname] = info
+        defs.append(f"/-- `{path}:{fname}`" + (" (loop body)" if kind != "fn" else "") + " -/\n" + info["src"])
+    return OS_HEADER + "\n".join(defs) + OS_TIES
+
+
+GENERATORS = {"Geometry": generate, "OverSample": generate_oversample}
+
+
 if __name__ == "__main__":
     import sys
-    print(generate(Path(sys.argv[1] if len(sys.argv) > 1 else "/repo")))
+    which = sys.argv[2] if len(sys.argv) > 2 else "Geometry"
+    print(GENERATORS[which](Path(sys.argv[1] if len(sys.argv) > 1 else "/repo")))
